@@ -396,7 +396,7 @@ def run(chk):
     if t is None:
         return chk.finish(level="proof", rule="translator aborted; no cases run")
     ex, srv = t
-    nh, hl = (140, 30) if chk.tier == "quick" else (2500, 40)
+    nh, hl = (140, 30) if chk.tier == "quick" else (700, 40)
     plans, hist = [], []
     for k in range(nh):
         backed = k % 3 == 2
